@@ -19,6 +19,7 @@ var (
 	errShortMessage   = fmt.Errorf("%w: short message", ErrCorrupted)
 	errShortData      = fmt.Errorf("%w: short data", ErrCorrupted)
 	errNoMessage      = fmt.Errorf("%w: no message", ErrCorrupted)
+	errShortLog       = fmt.Errorf("%w: log shorter than index", ErrCorrupted)
 	errInvalidHeader  = fmt.Errorf("%w: invalid header", ErrCorrupted)
 	errCrcFailed      = fmt.Errorf("%w: crc failed", ErrCorrupted)
 	errBadTrailer     = fmt.Errorf("%w: bad trailer", ErrCorrupted)
@@ -392,7 +393,8 @@ func (r *Reader) Consume(position, maxPosition int64, maxCount int64) ([]Message
 		case err == nil:
 			position = next
 		case errors.Is(err, io.EOF):
-			return msgs[:i], nil
+			// the index promised a message at maxPosition: the log file is shorter than its index
+			return nil, errShortLog
 		default:
 			return nil, err
 		}
